@@ -23,9 +23,10 @@ TIMEOUT = {'quick': 3600, 'thorough': 21600}
 NAMED = ['black', 'white', 'red', 'blue', 'yellow', 'navy', 'gold', 'Olive', 'DARKRED', 'steelblue', 'grey', 'aliceblue',
          'antiquewhite', 'aqua', 'aquamarine', 'azure', 'yellowgreen', 'whitesmoke']
 HEX = ['#000', '#fff', '#abc', '#123456', '#FFFFFF', '#000000', '#0f0', '#fe12dc', '#010203', '#f0f8ff', '#faebd7', '#aabbcd', '#112234']
-HEXA = ['#12345680', '#abcd', '#00000010', '#ffffff00', '#11223344', '#000f', '#abcdefff']
+HEXA = ['#12345680', '#abcd', '#00000010', '#ffffff00', '#11223344', '#000f', '#abcdefff', '#0cc80701', '#ffffff01', '#00000001', '#1230']
 TUP = [(1, 2, 3), (255, 255, 255), (0, 0, 0), (200, 100, 50), (18, 52, 86)]
-TUPA = [(1, 2, 3, 4), (10, 20, 30, 128), (0, 0, 0, 0), (255, 255, 255, 254), (9, 8, 7, 255)]
+TUPA = [(1, 2, 3, 4), (10, 20, 30, 128), (0, 0, 0, 0), (255, 255, 255, 254), (9, 8, 7, 255), (12, 200, 7, 1), (0, 0, 0, 1), (255, 255, 255, 1),
+        (5, 6, 7, 0.5), (5, 6, 7, 1.0), (5, 6, 7, 0.0), (200, 0, 0, 2)]
 
 
 def rnd_color(rng, alpha=False, none=False):
@@ -69,7 +70,14 @@ def gen_cases(tier, seed):
             if rng.random() < 0.3:
                 kw['compresslevel'] = rng.randint(0, 9)
         elif kind == 'pam':
-            if rng.random() < 0.8:
+            r = rng.random()
+            if r < 0.15:
+                # a translucent dark colour on a transparent background (RGB_ALPHA, the alpha sample as requested),
+                # incl. translucent black / white
+                kw['dark'] = rng.choice(['#00000080', (0, 0, 0, 64), '#FFFFFFC0', (255, 255, 255, 128), '#0000ff80',
+                                         (12, 200, 7, 1), '#abcd', (0, 0, 0, 254)])
+                kw['light'] = None
+            elif r < 0.8:
                 kw['dark'] = rnd_color(rng)
                 kw['light'] = rnd_color(rng, none=True)
         elif kind == 'ppm':
